@@ -139,4 +139,149 @@ Qed.
 
 Theorem loop_expiries_bounded st : lreach lc st0 st -> Z.of_nat (nexp st) <= B.
 Proof. intros H. apply (expiries_inv st H). Qed.
+
+(* hence the number of agenda steps *)
+Theorem loop_steps_bounded k st : lsteps lc k st0 st -> Z.of_nat k <= 3 + Gnew lc * SZ + Cexp lc * B.
+Proof.
+  intros H. pose proof (loop_work_bounded_by_expiries lc cw ss rtt0 orc k st Hok2 Hcw Hrtt Hfs H) as Hw.
+  pose proof (loop_expiries_bounded st (lsteps_reach _ _ _ _ H)) as Hb.
+  assert (0 <= Cexp lc).
+  { unfold Cexp. pose proof (reach_ns_le lc cw ss rtt0 orc st0 Hok2 Hcw Hrtt Hfs (reach_init _ _)). unfold linit, init in H0; lproj; proj. lia. }
+  nia.
+Qed.
+
+(* RELIABLE DELIVERY: with more fuel than that the runner ends quiescent (or stopped by t_max) with
+   everything delivered and acknowledged *)
+Theorem loop_terminates fuel :
+  3 + Gnew lc * SZ + Cexp lc * B < Z.of_nat fuel ->
+  match lrun fuel lc st0 with
+  | LQuiescent st => last_ack (l_snd st) = SZ /\ nse (l_sink st) = SZ /\ sink_prefix (l_sink st) SZ
+  | LStopped st => exists a rest, l_agenda st = a :: rest /\ (lc_tmax lc <= ae_time a)%Q
+  | LFuel _ | LRaised _ _ => False
+  end.
+Proof.
+  intros Hfuel.
+  destruct (lrun fuel lc st0) as [st|st|st|st e] eqn:E.
+  - assert (Hr : lreach lc st0 st).
+    { pose proof (lrun_reach lc st0 fuel _ (reach_init _ _)) as R. rewrite E in R. exact R. }
+    assert (Hq : l_agenda st = []).
+    { clear -E. revert E. generalize st0. induction fuel as [|f IH]; intros s0; cbn [lrun]; [discriminate|].
+      destruct (l_agenda s0) as [|a rest] eqn:Ea; [intros H; injection H as <-; exact Ea|].
+      destruct (Qle_bool _ _); [discriminate|]. destruct (lstep lc s0) as [[s1|e]|] eqn:Es; try discriminate.
+      - apply IH.
+      - unfold lstep in Es. rewrite Ea in Es. discriminate. }
+    exact (loop_quiescent_complete lc cw ss rtt0 orc st Hok2 Hcw Hrtt Hfs Hr Hq).
+  - clear -E. revert E. generalize st0. induction fuel as [|f IH]; intros s0; cbn [lrun]; [discriminate|].
+    destruct (l_agenda s0) as [|a rest] eqn:Ea; [discriminate|].
+    destruct (Qle_bool (lc_tmax lc) (ae_time a)) eqn:Eq.
+    + intros H; injection H as <-. exists a, rest. split; [exact Ea|apply Qle_bool_iff; exact Eq].
+    + destruct (lstep lc s0) as [[s1|e]|] eqn:Es; try discriminate. apply IH.
+  - apply lrun_fuel_steps in E. apply loop_steps_bounded in E. lia.
+  - eapply loop_never_raises; eauto.
+Qed.
 End Final.
+
+(* ================================================================================================ *)
+(* an explicit bound *)
+Lemma pow2_ge_2l l : 0 <= l -> 2 * l <= 2 ^ l.
+Proof.
+  intros Hl. pattern l. apply natlike_ind; [cbn; lia| |exact Hl].
+  intros x Hx IH. rewrite Z.pow_succ_r by exact Hx.
+  destruct (Z.eq_dec x 0) as [->|Hne]; [cbn; lia|].
+  assert (2 <= 2 ^ x) by (change 2 with (2 ^ 1) at 1; apply Z.pow_le_mono_r; lia). lia.
+Qed.
+
+Section Explicit.
+Variable lc : lcfg.
+Variable rtt0 : Q.
+Local Notation SZ := (fsize (lc_cfg lc)).
+Local Notation d := (lc_delay lc).
+
+Definition kappa : Z := Qceiling (d / rho lc rtt0).
+Definition c0 : Z := 3 * SZ + 3.
+Definition alpha : Z := 6 + Gnew lc * SZ + Cexp lc.
+Definition A1 : Z := (alpha + Cexp lc * nphase lc * c0) * kappa.
+Definition A2 : Z := Cexp lc * nphase lc * kappa.
+Definition Lexp : Z := 2 * Z.log2_up (A1 + A2 + 1).
+(* THE BOUND on the number of timer expiries: a function of the flow size, MSS (through the drop
+   lists' lengths only), delay, initial RTT estimate and the lengths of the drop lists *)
+Definition Bexp : Z := nphase lc * (c0 + Lexp).
+
+Hypothesis Hok2 : lc_ok2 lc.
+Hypothesis Hrtt : (0 < rtt0)%Q.
+Hypothesis Hfs : SZ <> 0.
+
+Lemma SZ_pos : 0 < SZ.
+Proof. destruct (ok2_size _ Hok2) as (k & Hk & Ek). pose proof (ok_mss _ (ok2_ok _ Hok2)). nia. Qed.
+
+Lemma rho_pos : (0 < rho lc rtt0)%Q.
+Proof. unfold rho. pose proof (geo_pos (Z.to_nat SZ)). nra. Qed.
+
+Lemma Bexp_ok : 0 <= Bexp /\ PsiMax lc (LGB lc rtt0 Bexp) * nphase lc <= Bexp.
+Proof.
+  pose proof SZ_pos as Hs. pose proof rho_pos as Hr. pose proof (ok_delay _ (ok2_ok _ Hok2)) as Hd.
+  assert (HM : 1 <= nphase lc) by (unfold nphase; lia).
+  assert (Hc0 : 0 <= c0) by (unfold c0; lia).
+  assert (HG : 0 <= Gnew lc) by (unfold Gnew; lia).
+  assert (HC : 0 <= Cexp lc) by (unfold Cexp; lia).
+  assert (Ha : 0 <= alpha) by (unfold alpha; nia).
+  assert (Hk : 0 <= kappa).
+  { unfold kappa. assert (0 <= d / rho lc rtt0)%Q by (apply Qle_shift_div_l; [exact Hr|lra]).
+    pose proof (Qle_ceiling (d / rho lc rtt0)) as Hc. assert (inject_Z (-1) < inject_Z (Qceiling (d / rho lc rtt0)))%Q by (apply Qlt_le_trans with 0%Q; [reflexivity|lra]).
+    rewrite <- Zlt_Qlt in H0. lia. }
+  assert (HA1 : 0 <= A1) by (unfold A1; nia). assert (HA2 : 0 <= A2) by (unfold A2; nia).
+  set (l := Z.log2_up (A1 + A2 + 1)). assert (Hl : 0 <= l) by apply Z.log2_up_nonneg.
+  assert (HL : 0 <= Lexp) by (unfold Lexp; fold l; lia).
+  assert (HBx : 0 <= Bexp) by (unfold Bexp; nia).
+  split; [exact HBx|].
+  (* (alpha + Cexp * Bexp) * kappa <= 2 ^ Lexp *)
+  assert (P1 : A1 + A2 + 1 <= 2 ^ l) by (apply Z.log2_up_le_pow2; [lia|unfold l; lia]).
+  assert (P2 : 2 * l <= 2 ^ l) by (apply pow2_ge_2l; exact Hl).
+  assert (P3 : 2 ^ Lexp = 2 ^ l * 2 ^ l) by (unfold Lexp; fold l; replace (2 * l) with (l + l) by lia; apply Z.pow_add_r; lia).
+  assert (P4 : A1 + A2 * Lexp <= 2 ^ Lexp).
+  { rewrite P3. unfold Lexp at 1. fold l. assert (1 <= 2 ^ l) by lia. nia. }
+  assert (P5 : (alpha + Cexp lc * Bexp) * kappa = A1 + A2 * Lexp) by (unfold A1, A2, Bexp; ring).
+  (* the threshold is below rho * 2 ^ Lexp *)
+  assert (Hdk : (d <= rho lc rtt0 * inject_Z kappa)%Q).
+  { unfold kappa. pose proof (Qle_ceiling (d / rho lc rtt0)) as Hc.
+    assert (Ht : (d == (d / rho lc rtt0) * rho lc rtt0)%Q) by (field; lra). rewrite Ht at 1. nra. }
+  assert (HP : (inject_Z (Pmax lc Bexp) + 3 == inject_Z (alpha + Cexp lc * Bexp))%Q).
+  { assert (Ez : Pmax lc Bexp + 3 = alpha + Cexp lc * Bexp) by (unfold Pmax, alpha; ring).
+    rewrite <- Ez, inject_Z_plus. reflexivity. }
+  assert (HLG : LGB lc rtt0 Bexp <= Lexp).
+  { unfold LGB. apply lgz_le; [exact Hr|exact HL|]. unfold ThetaB. rewrite HP.
+    assert (Hq : (inject_Z (alpha + Cexp lc * Bexp) * inject_Z kappa <= inject_Z (2 ^ Lexp))%Q).
+    { rewrite <- inject_Z_mult, <- Zle_Qle. rewrite P5. exact P4. }
+    assert (0 <= inject_Z (alpha + Cexp lc * Bexp))%Q by (change 0%Q with (inject_Z 0); rewrite <- Zle_Qle; nia).
+    nra. }
+  unfold PsiMax. unfold Bexp at 2. rewrite (Z.mul_comm (nphase lc)). apply Z.mul_le_mono_nonneg_r; [lia|]. unfold c0. lia.
+Qed.
+End Explicit.
+
+(* RELIABLE DELIVERY (C16, liveness): for every flow of whole segments, MSS > 0, one-way delay d >= 0,
+   initial RTT estimate > 0, initial window >= MSS, every two FINITE lists of dropped transmission
+   indices, Reno or CUBIC (any oracle): a run with more than  3 + Gnew*size + Cexp*Bexp  steps of fuel
+   never runs out of fuel and never raises; it ends with an empty agenda, last_ack = size and the sink
+   holding exactly [0, size) -- unless t_max stops it first *)
+Theorem loop_reliable_delivery lc cw ss rtt0 orc fuel :
+  lc_ok2 lc -> (zq (mss (lc_cfg lc)) <= cw)%Q -> (0 < rtt0)%Q -> fsize (lc_cfg lc) <> 0 ->
+  3 + Gnew lc * fsize (lc_cfg lc) + Cexp lc * Bexp lc rtt0 < Z.of_nat fuel ->
+  match lrun fuel lc (linit cw ss rtt0 orc) with
+  | LQuiescent st => last_ack (l_snd st) = fsize (lc_cfg lc) /\ nse (l_sink st) = fsize (lc_cfg lc) /\
+                     sink_prefix (l_sink st) (fsize (lc_cfg lc))
+  | LStopped st => exists a rest, l_agenda st = a :: rest /\ (lc_tmax lc <= ae_time a)%Q
+  | LFuel _ | LRaised _ _ => False
+  end.
+Proof.
+  intros Hok2 Hcw Hrtt Hfs Hfuel. destruct (Bexp_ok lc rtt0 Hok2 Hrtt Hfs) as [B0 B1].
+  exact (loop_terminates lc cw ss rtt0 orc (Bexp lc rtt0) Hok2 Hcw Hrtt Hfs B0 B1 fuel Hfuel).
+Qed.
+
+(* and in every reachable state: the expiries so far, the agenda steps so far *)
+Theorem loop_expiries_bounded_explicit lc cw ss rtt0 orc st :
+  lc_ok2 lc -> (zq (mss (lc_cfg lc)) <= cw)%Q -> (0 < rtt0)%Q -> fsize (lc_cfg lc) <> 0 ->
+  lreach lc (linit cw ss rtt0 orc) st -> Z.of_nat (nexp st) <= Bexp lc rtt0.
+Proof.
+  intros Hok2 Hcw Hrtt Hfs Hr. destruct (Bexp_ok lc rtt0 Hok2 Hrtt Hfs) as [B0 B1].
+  exact (loop_expiries_bounded lc cw ss rtt0 orc (Bexp lc rtt0) Hok2 Hcw Hrtt Hfs B0 B1 st Hr).
+Qed.
